@@ -297,6 +297,9 @@ def cases(tier):
                   ("Uh", (1, 1)), ("Wh", (1, 1)), ("bh", (1,))]
     cs.append(C("n/gru/T1", "out = gru(X, Uz, Wz, bz, Ur, Wr, br, Uh, Wh, bh)", gru_leaves, heavy=True))
     cs.append(C("n/gru/T2", "out = gru(X, Uz, Wz, bz, Ur, Wr, br, Uh, Wh, bh)", [("X", (2, 1, 1))] + gru_leaves[1:], heavy=True))
+    # parameters that receive more than one contribution: tied gates; a penalty term whose backward pass runs first
+    cs.append(C("n/gru/T1/tied-gates", "out = gru(X, Uz, Wz, bz, Uz, Wz, bz, Uh, Wh, bh)", [l for l in gru_leaves if l[0] not in ("Ur", "Wr", "br")], heavy=True))
+    cs.append(C("n/gru/T1/penalty", "s = gru(X, Uz, Wz, bz, Ur, Wr, br, Uh, Wh, bh)\nout = s[1:].sum() + (Wz * Wz).sum() + (bh * Uh).sum()", gru_leaves, heavy=True))
     if T:
         cs.append(C("n/gru/T2/s0", "out = gru(X, Uz, Wz, bz, Ur, Wr, br, Uh, Wh, bh, s0=s)",
                     [("X", (2, 1, 1))] + gru_leaves[1:], carrs=[["s", [1, 1]]], heavy=True))
